@@ -223,7 +223,7 @@ theorem enter_hrel :
 /-- `__enter__` on a settled object establishes the transaction invariant (nothing pending, snapshot = present state) -/
 theorem enter_txh {w : World} {i : Nat} {o : Obj} {obs : List String} (hget : w.objs[i]? = some o)
     (hch : o.changed = some none) (hf : AllFresh o.mol o.hs) (herr : (step current w (.enter i) obs).err = none) :
-    ∃ o' bk, (step current w (.enter i) obs).w.objs[i]? = some o' ∧ TxH o' bk ∧ o'.mol = o.mol := by
+    ∃ o' bk, (step current w (.enter i) obs).w.objs[i]? = some o' ∧ TxH o' bk ∧ o'.mol = o.mol ∧ bk.mol = o.mol ∧ bk.hs = o.hs := by
   unfold step at herr ⊢
   simp only [Op.target, hget] at herr ⊢
   obtain ⟨c, hi⟩ := runFn_ok herr
@@ -241,7 +241,7 @@ theorem enter_txh {w : World} {i : Nat} {o : Obj} {obs : List String} (hget : w.
         rw [hb] at h4
         simp only [bkH, Option.some.injEq, Prod.mk.injEq] at h4
         exact ⟨x, rfl, h4.1, h4.2⟩
-  refine ⟨c.o, bk, getElem?_setObj_self _ hget, ⟨hb, by rw [h3, hch]; simp, ?_, ?_⟩, h1⟩
+  refine ⟨c.o, bk, getElem?_setObj_self _ hget, ⟨hb, by rw [h3, hch]; simp, ?_, ?_⟩, h1, hbm, hbh⟩
   · intro n hn _
     rw [h1] at hn
     rw [h2, hbm, h1, envRef_self]
